@@ -2761,7 +2761,21 @@ impl Term<Name> {
                     .eval(ExBudget::default())
                     .result();
 
-                    if let Ok(value) = result {
+                    // BLS12-381 elements have no serialised form as constants: a call that
+                    // produces one is left in place, or the program could no longer be encoded.
+                    let result = result.ok().filter(|value| {
+                        !matches!(
+                            value,
+                            Term::Constant(constant) if matches!(
+                                constant.as_ref(),
+                                Constant::Bls12_381G1Element(_)
+                                    | Constant::Bls12_381G2Element(_)
+                                    | Constant::Bls12_381MlResult(_)
+                            )
+                        )
+                    });
+
+                    if let Some(value) = result {
                         changed = true;
 
                         for (arg_id, _) in applies {
